@@ -57,6 +57,7 @@ def run(ctx, prog, facts, tier):
     rules_local.check_threat_tables(ctx, prog, I, tier == 'quick')
     rules_local.check_freeze_tables(ctx, prog, I, tier == 'quick')
     rules_local.check_push_tables(ctx, prog, I)
+    rules_local.check_complete_tables(ctx, prog, I)
     ctx.rule('C01.5', 'per mode (side x step x push/pull status) the rule-only action list consists of: one own-step '
                       'generator per direction (mover literal, destination empty, freezing footprint, rabbits not '
                       'backward), push starts only before the last step (enemy literal, destination empty), pulls '
